@@ -198,6 +198,25 @@ def rule_recheck(ctx, px):
             args.append(ast.unparse(a))
     ok = sorted(args) == sorted(["'all'", typ])
     ctx.ob(R, d.module.rel, f"{d.short} :: rules of 'all' and of the token type are both applied", ok, f"{args}", d.node.lineno)
+    # a rule set that is not configured (KeyError) is skipped on its own: the handler must not also swallow the other application
+    for c in calls:
+        cur, tr, loop_inside_try = c, None, False
+        seen_for = False
+        while id(cur) in pm:
+            cur = pm[id(cur)]
+            if isinstance(cur, ast.For):
+                seen_for = True
+            if isinstance(cur, ast.Try) and any(h.type is not None and "KeyError" in ast.unparse(h.type) or h.type is None for h in cur.handlers):
+                tr = cur
+                loop_inside_try = seen_for
+                break
+        if tr is None:
+            continue      # KeyError propagates: nothing is swallowed
+        others = [x for x in calls if x is not c and any(y is x for y in ast.walk(ast.Module(body=tr.body, type_ignores=[])))]
+        ok2 = not others and not loop_inside_try
+        ctx.ob(R, d.module.rel, f"{d.short} :: a missing rule set skips only its own application (`{ast.unparse(c)[:50]}`)", ok2,
+               "" if ok2 else "one try / except KeyError spans several applications: when the 'all' rules are not configured the rules of the token type are skipped too "
+               "(in the stropping pass and in its dry-run verification alike)", c.lineno)
 
 
 def rule_identity(ctx, px):
@@ -339,6 +358,10 @@ def rule_pure(ctx, px):
                     written.setdefault(t.attr, set()).add(name)
     bad = {a: sorted(ms) for a, ms in written.items() if ms - {"__init__"}}
     ctx.ob(R, f.module.rel, "TokenEncoder :: attributes are written in __init__ only", not bad, "" if not bad else f"{bad}")
+    # each Language object has its own encoder: the caching property keeps its value per instance
+    from checks import C10
+    okp, whyp = C10.cached_property_per_instance(px)
+    ctx.ob(R, "src/nunavut/_utilities.py", "cached_property (Language._token_encoder) :: one encoder per Language object", okp, whyp)
     ok = any("lru_cache" in d for d in f.decorators)
     params = [a.arg for a in f.node.args.args]
     ctx.ob(R, f.module.rel, f"{f.short} :: memo key = {params}", params == ["self", "token", "token_type"], "cached" if ok else "not cached", f.node.lineno)
